@@ -5,29 +5,21 @@
   Records: the `struct nsync_waiter_s` array of an nsync_wait_n call, on the caller's stack (count <= 4,
   `Rid.stk`) or malloc'ed (`Rid.heap`); their lifetime starts at the initialising store of wait.c:47 and ends
   at the return of the call (stack) or at `free` (heap): `registered s r`.  `touches s u e r`: event `e` of
-  thread `u` reads or writes `nw->waiting` of r, or is the `nsync_mu_semaphore_v (nw->sem)` of a waker that
-  popped r (it reads `nw->sem`).  The statements range over all reachable states of the WaitN acceptor: any
-  number of callers, condition-variable signallers / broadcasters, note and counter wakers, any interleaving.
+  thread `u` reads or writes `nw->waiting` of r, or is the `nsync_mu_semaphore_v (nw->sem)` of a note / counter
+  waker that popped r (it reads `nw->sem`).  The V of wake_waiters (cv.c) touches no record: after the repair
+  of defect F3 the semaphore pointer is copied before `ATM_STORE_REL (&p_nw->waiting, 0)`.
+  The statements range over all reachable states of the WaitN acceptor (the repaired code): any number of
+  callers, condition-variable signallers / broadcasters, note and counter wakers, any interleaving.
 
-  PARTIAL results (defect F3: cv_dequeue decides "still enqueued" from `waiting != 0` alone):
-  * `C13_record_lifetime_full` is FALSE on the unchanged code:
-      - `C13_record_lifetime_full_false`  (trace `Example.f3touch`: the signaller's `STORE_REL (&nw->waiting, 0)`
-        of wake_waiters, cv.c:144, hits the returned caller's stack record; the same events are the first
-        execution of corpus/C13/f3_waitn_cv.txt, which the harness ends with `# outcome oracle … dead-object`);
-      - `C13_record_lifetime_window2` (no F3 needed: the signaller's V after `waiting := 0` reads `nw->sem` of
-        a record whose owner has timed out, seen `waiting == 0`, and returned; the real code reads the field
-        before the store only if the compiler hoists it — the harness flavour passes `p_nw->sem` after).
-  * `C13_record_lifetime_partial` is what holds: on runs on which no cv_dequeue has taken the F3 exit
-    (`s'.f3 = false`), every access by a thread other than the owner, except the V of a cv signaller, is to a
-    registered record.  In particular all note and counter wakers (they pop, clear and post under the
-    object's mutex, which the owner's dequeue takes as well), every dequeue, every ready_time poll.
-    Under F3 with slot reuse not even note / counter wakers are safe (the stale cv waker can clear `waiting`
-    of the reused record, after which its new owner leaves early), hence the hypothesis on the whole run.
-  * `C13_owner_returns_after_full` is FALSE (`…_full_false`, trace `Example.window2`);
-    `C13_owner_returns_after_partial` (runs with `s'.f3 = false`): once the call has returned, none of its
-    records is registered, queued on any object, pending in any signaller's wake list (between unlink and
-    clear), or in the hands of a note / counter waker; only a cv signaller that has already cleared `waiting`
-    may still owe the V.
+  STATUS.  Both theorems are proved as stated, for all three kinds of objects:
+  * `C13_record_lifetime`: every access to a record by a thread that is not its owner is to a registered
+    record.  (Before the repair this failed for cv objects: the signaller's store to `waiting`, and its V,
+    could hit a record whose owner had timed out inside the window and returned.  That interleaving is now
+    rejected by the acceptor — `Example.oldF3` in Props/C11.lean — and the harness no longer reports
+    `dead-object` on corpus/C13/f3_waitn_cv.txt, whose first execution is `Example.fixed`.)
+  * `C13_owner_returns_after`: once the call has returned, none of its records is registered, queued on any
+    object, between a signaller's unlink and clear, or in the hands of a note / counter waker.  (A signaller
+    that has already cleared `waiting` may still owe the V — `Example.lateV` — which touches no record.)
 -/
 import NsyncVerif.Props.C11
 
@@ -35,17 +27,11 @@ set_option linter.unusedVariables false
 
 namespace WaitN
 
-/-- FULL statement (false on the current code, defect F3). -/
-def C13_record_lifetime_full : Prop :=
-  ∀ (s s' : State) (u : Tid) (e : Ev) (r : Rid), Reachable s → step s (.thr u e) = .ok s' → touches s u e r →
-    (s'.rcd r).owner ≠ u → registered s r
-
-/-- PARTIAL: runs without the F3 exit of cv_dequeue; every access but the final V of a cv signaller. -/
-theorem C13_record_lifetime_partial {s s' : State} {u : Tid} {e : Ev} {r : Rid} (hr : Reachable s)
-    (hs : step s (.thr u e) = .ok s') (hf3 : s'.f3 = false) (ht : touches s u e r) (hne : (s'.rcd r).owner ≠ u)
-    (hv : ∀ j, e = .semV j → wk (s.pc u) = none) : registered s r := by
+/-- every access to a waiter record by a thread other than its owner is to a registered record -/
+theorem C13_record_lifetime {s s' : State} {u : Tid} {e : Ev} {r : Rid} (hr : Reachable s)
+    (hs : step s (.thr u e) = .ok s') (ht : touches s u e r) (hne : (s'.rcd r).owner ≠ u) : registered s r := by
   simp only [step] at hs
-  have hq := (qinv_of_reachable hr (f3_mono hs hf3)).qi
+  have hq := (qinv_of_reachable hr).qi
   unfold registered
   cases touch_stepThr (linv_of_reachable hr u) hs ht with
   | init i hpc ho => exact absurd ho hne
@@ -54,26 +40,45 @@ theorem C13_record_lifetime_partial {s s' : State} {u : Tid} {e : Ev} {r : Rid} 
   | clear c l hwk hp hm =>
     have : r ∈ pend (s.post u) l := by rw [hp]; exact hm
     exact ((hq.q4 u c l hwk).2.2 r this).1
-  | post j he hp =>
+  | post j he hp hw =>
     rcases hq.q5 u r hp with h1 | h2
-    · rw [hv j he] at h1; cases h1
+    · rw [hw] at h1; cases h1
     · exact h2.1
 
-/-- note and counter wakers, spelled out: the V of a thread that is not a cv signaller is to a live record -/
-theorem C13_record_lifetime_post {s s' : State} {u : Tid} {j : SemId} {r : Rid} (hr : Reachable s)
-    (hs : step s (.thr u (.semV j)) = .ok s') (hf3 : s'.f3 = false) (hp : s.post u = some r)
-    (hw : wk (s.pc u) = none) : registered s r ∧ (s.rcd r).waiting = false ∧ (s.rcd r).deqd = false := by
+/-- the owner itself only touches its own registered records, except for the initialising store -/
+theorem C13_owner_access {s s' : State} {u : Tid} {e : Ev} {r : Rid} (hr : Reachable s)
+    (hs : step s (.thr u e) = .ok s') (ht : touches s u e r) :
+    registered s r ∨ ((∃ i, s.pc u = .wInit i) ∧ (s'.rcd r).owner = u) := by
   simp only [step] at hs
-  have hq := (qinv_of_reachable hr (f3_mono hs hf3)).qi
+  have hq := (qinv_of_reachable hr).qi
+  unfold registered
+  cases touch_stepThr (linv_of_reachable hr u) hs ht with
+  | init i hpc ho => exact .inr ⟨⟨i, hpc⟩, ho⟩
+  | own hm hc hf => exact .inl ((own_of_reachable hr).own u r hc hf hm).1
+  | pop o hm => exact .inl (hq.q1 o r hm).1
+  | clear c l hwk hp hm =>
+    have : r ∈ pend (s.post u) l := by rw [hp]; exact hm
+    exact .inl ((hq.q4 u c l hwk).2.2 r this).1
+  | post j he hp hw =>
+    rcases hq.q5 u r hp with h1 | h2
+    · rw [hw] at h1; cases h1
+    · exact .inl h2.1
+
+/-- the V of a note / counter waker is to a live record that is cleared and whose dequeue has not returned -/
+theorem C13_record_lifetime_post {s s' : State} {u : Tid} {j : SemId} {r : Rid} (hr : Reachable s)
+    (hs : step s (.thr u (.semV j)) = .ok s') (hp : s.post u = some r)
+    (hw : wk (s.pc u) = none) : registered s r ∧ (s.rcd r).waiting = false ∧ (s.rcd r).deqd = false := by
+  have hq := (qinv_of_reachable hr).qi
   rcases hq.q5 u r hp with h1 | h2
   · rw [hw] at h1; cases h1
   · exact ⟨h2.1, h2.2.2.2.2, h2.2.1⟩
 
 /-! ### the owner's return -/
 
-/-- u has record r in hand: it unlinked / popped r and has not finished clearing and posting it -/
-def inHand (s : State) (u : Tid) (r : Rid) : Prop :=
-  s.post u = some r ∨ ∃ c l, wk (s.pc u) = some (c, l) ∧ r ∈ pend (s.post u) l
+/-- u is between unlinking / popping record r and clearing its `waiting` (cv signaller), resp. between popping
+    it and posting (note / counter waker, which reads `nw->sem` for the post) -/
+def betweenUnlinkAndClear (s : State) (u : Tid) (r : Rid) : Prop :=
+  (∃ c l, wk (s.pc u) = some (c, l) ∧ r ∈ pend (s.post u) l) ∨ (s.post u = some r ∧ wk (s.pc u) = none)
 
 theorem ret_idle {s s' : State} {t : Tid} {i : Nat} {nested : Bool} (hs : step s (.thr t (.retWaitN i nested)) = .ok s') :
     s'.pc t = .idle := by
@@ -83,23 +88,14 @@ theorem ret_idle {s s' : State} {t : Tid} {i : Nat} {nested : Bool} (hs : step s
   · cases hs; simp
   · simp at hs
 
-/-- FULL statement (false: the second window): after the return no thread has a record of the call in hand. -/
-def C13_owner_returns_after_full : Prop :=
-  ∀ (s s' : State) (t : Tid) (i : Nat) (nested : Bool), Reachable s → step s (.thr t (.retWaitN i nested)) = .ok s' →
-    ∀ r ∈ (s.fr t).recs, ∀ u, inHand s' u r → registered s' r ∧ (s'.rcd r).owner ≠ t
-
-/-- PARTIAL (runs with `s'.f3 = false`): after `ret nsync_wait_n` of thread t no record is registered to t (this
-    part needs no hypothesis), nothing queued on any object belongs to t, nothing between a signaller's
-    unlink and clear belongs to t, and a record in the hands of a note / counter waker does not belong to t.
-    (Stated with the ghost `owner` so that it is not defeated by the reuse of a freed heap address by
-    another thread's call.) -/
-theorem C13_owner_returns_after_partial {s s' : State} {t : Tid} {i : Nat} {nested : Bool} (hr : Reachable s)
+/-- after `ret nsync_wait_n` of thread t: no record is registered to t, nothing queued on any object belongs to
+    t, and no thread is between unlink / pop and clear / post of a record of t.  (Stated with the ghost `owner`
+    so that it is not defeated by the reuse of a freed heap address by another thread's call.) -/
+theorem C13_owner_returns_after {s s' : State} {t : Tid} {i : Nat} {nested : Bool} (hr : Reachable s)
     (hs : step s (.thr t (.retWaitN i nested)) = .ok s') :
     (∀ r, registered s' r → (s'.rcd r).owner ≠ t)
-    ∧ (s'.f3 = false →
-        (∀ o r, r ∈ (s'.obj o).queue → registered s' r ∧ (s'.rcd r).owner ≠ t)
-        ∧ (∀ u c l r, wk (s'.pc u) = some (c, l) → r ∈ pend (s'.post u) l → registered s' r ∧ (s'.rcd r).owner ≠ t)
-        ∧ (∀ u r, s'.post u = some r → wk (s'.pc u) = none → registered s' r ∧ (s'.rcd r).owner ≠ t)) := by
+    ∧ (∀ o r, r ∈ (s'.obj o).queue → registered s' r ∧ (s'.rcd r).owner ≠ t)
+    ∧ (∀ u r, betweenUnlinkAndClear s' u r → registered s' r ∧ (s'.rcd r).owner ≠ t) := by
   have hr' := reachable_step hr hs
   have hidle := ret_idle hs
   have h1 : ∀ r, registered s' r → (s'.rcd r).owner ≠ t := by
@@ -107,82 +103,49 @@ theorem C13_owner_returns_after_partial {s s' : State} {t : Tid} {i : Nat} {nest
     have := ((own_of_reachable hr').back r hl).1
     rw [ho, hidle] at this
     cases this
-  refine ⟨h1, fun hf3 => ?_⟩
-  have hq := (qinv_of_reachable hr' hf3).qi
-  refine ⟨?_, ?_, ?_⟩
+  have hq := (qinv_of_reachable hr').qi
+  refine ⟨h1, ?_, ?_⟩
   · intro o r hm
     have := (hq.q1 o r hm).1
     exact ⟨this, h1 r this⟩
-  · intro u c l r hw hm
-    have := ((hq.q4 u c l hw).2.2 r hm).1
-    exact ⟨this, h1 r this⟩
-  · intro u r hp hw
-    rcases hq.q5 u r hp with h | h
-    · rw [hw] at h; cases h
-    · exact ⟨h.1, h1 r h.1⟩
+  · intro u r hb
+    rcases hb with ⟨c, l, hw, hm⟩ | ⟨hp, hw⟩
+    · have := ((hq.q4 u c l hw).2.2 r hm).1
+      exact ⟨this, h1 r this⟩
+    · rcases hq.q5 u r hp with h | h
+      · rw [hw] at h; cases h
+      · exact ⟨h.1, h1 r h.1⟩
 
-/-! ### witnesses -/
+/-- the records of a call on the caller's stack (count <= 4) are unregistered by the return -/
+theorem C13_owner_returns_after_stack {s s' : State} {t : Tid} {i : Nat} {nested : Bool}
+    (hs : step s (.thr t (.retWaitN i nested)) = .ok s') (hh : (s.fr t).heap = none) :
+    ∀ r ∈ (s.fr t).recs, ¬ registered s' r := by
+  intro r hm
+  have hpc := (ret_pc hs).1
+  simp only [step, stepThr, hpc, stepRet] at hs
+  split at hs
+  · cases hs; simp [registered, hh, hm]
+  · simp at hs
+
+/-! ### non-vacuity -/
 
 namespace Example
 
-/-- `Example.f3ret` (Props/C11.lean), then the signaller's `STORE_REL (&nw->waiting, 0)` on the dead record.
-    Harness: corpus/C13/f3_waitn_cv.txt, first `exec sched=…` line (outcome `oracle … dead-object`). -/
-def f3touch : List Event := f3ret ++ [.thr 1 (.st .rel (.waiting r0) .wake 0 0)]
+/-- `Example.fixed` (Props/C11.lean), the return of the caller, and then the signaller's V: accepted, and the V
+    comes when the record is dead — it does not touch it (`touches` of a V by a thread inside
+    nsync_cv_signal is `False` by definition). -/
+def lateV : List Event := fixed ++ [.thr 0 (.retWaitN 0 false)]
 
-example : accepts f3touch = true := by decide
-example : accepts (f3touch ++ [.thr 1 (.semV 0), .thr 1 (.retSig false)]) = true := by decide
-
-/-- a note waker against a caller that is woken: the hypotheses of the partial theorem are satisfiable
-    (`Example.noteCtr` contains the counter waker's clear and V on the live record `stk 1`) -/
-example : (final (noteCtr.take 50)).map (fun s => decide (s.post 1 = some (.stk 1) ∧ (s.rcd (.stk 1)).live = true ∧ s.f3 = false
+example : accepts (lateV ++ [.thr 1 (.semV 0)]) = true := by decide
+example : (final lateV).map (fun s => decide ((s.rcd r0).live = false ∧ s.post 1 = some r0 ∧ s.pc 1 = .sg 0 false (.wake [r0])))
+    = some true := by decide
+/-- the signaller's store to `waiting` before the caller has seen it is to a registered record -/
+example : (final (fixed.dropLast.dropLast)).map (fun s => decide ((s.rcd r0).live = true ∧ s.pc 0 = .wDeqCv 0 .wspin
+    ∧ s.pc 1 = .sg 0 false (.wake [r0]) ∧ s.post 1 = none)) = some true := by decide
+/-- a counter waker's clear and V on the live record `stk 1` (`Example.noteCtr`) -/
+example : (final (noteCtr.take 50)).map (fun s => decide (s.post 1 = some (.stk 1) ∧ (s.rcd (.stk 1)).live = true
     ∧ wk (s.pc 1) = none)) = some true := by decide
 
 end Example
-
-/-- evaluate a predicate on the result of a step -/
-def thenB (r : R) (P : State → Bool) : Bool := match r with | .ok s' => P s' | .error _ => false
-
-theorem thenB_spec {r : R} {P : State → Bool} (h : thenB r P = true) : ∃ s', r = .ok s' ∧ P s' = true := by
-  cases r with
-  | ok s' => exact ⟨s', rfl, h⟩
-  | error m => simp [thenB] at h
-
-/-- F3: the waker's store to `waiting` of a record that is dead (its owner returned `count`). -/
-theorem C13_record_lifetime_full_false : ¬ C13_record_lifetime_full := by
-  intro h
-  obtain ⟨s, hr, hp⟩ := final_spec (evs := Example.f3ret)
-    (P := fun s => thenB (step s (.thr 1 (.st .rel (.waiting Example.r0) .wake 0 0))) (fun s' => decide ((s'.rcd Example.r0).owner ≠ 1))
-      && decide ((s.rcd Example.r0).live = false)) (by decide)
-  simp only [Bool.and_eq_true, decide_eq_true_eq] at hp
-  obtain ⟨s', hs', hp'⟩ := thenB_spec hp.1
-  simp only [decide_eq_true_eq] at hp'
-  have := h s s' 1 _ Example.r0 hr hs' (by simp [touches]) hp'
-  rw [registered, hp.2] at this
-  cases this
-
-/-- the second window (no F3 exit taken, `f3 = false`): the signaller's V reads `nw->sem` of a dead record. -/
-theorem C13_record_lifetime_window2 :
-    ∃ s s' u j r, Reachable s ∧ step s (.thr u (.semV j)) = .ok s' ∧ s'.f3 = false ∧ touches s u (.semV j) r
-      ∧ (s'.rcd r).owner ≠ u ∧ ¬ registered s r := by
-  obtain ⟨s, hr, hp⟩ := final_spec (evs := Example.window2 ++ [.thr 0 (.retWaitN 0 false)])
-    (P := fun s => thenB (step s (.thr 1 (.semV 0))) (fun s' => decide ((s'.rcd Example.r0).owner ≠ 1 ∧ s'.f3 = false))
-      && decide ((s.rcd Example.r0).live = false ∧ s.post 1 = some Example.r0)) (by decide)
-  simp only [Bool.and_eq_true, decide_eq_true_eq] at hp
-  obtain ⟨s', hs', hp'⟩ := thenB_spec hp.1
-  simp only [decide_eq_true_eq] at hp'
-  refine ⟨s, s', 1, 0, Example.r0, hr, hs', hp'.2, hp.2.2, hp'.1, ?_⟩
-  rw [registered, hp.2.1]; simp
-
-theorem C13_owner_returns_after_full_false : ¬ C13_owner_returns_after_full := by
-  intro h
-  obtain ⟨s, hr, hp⟩ := final_spec (evs := Example.window2)
-    (P := fun s => thenB (step s (.thr 0 (.retWaitN 0 false))) (fun s' => decide ((s'.rcd Example.r0).live = false ∧ s'.post 1 = some Example.r0))
-      && decide ((s.fr 0).recs = [Example.r0])) (by decide)
-  simp only [Bool.and_eq_true, decide_eq_true_eq] at hp
-  obtain ⟨s', hs', hp'⟩ := thenB_spec hp.1
-  simp only [decide_eq_true_eq] at hp'
-  have := (h s s' 0 0 false hr hs' Example.r0 (by rw [hp.2]; simp) 1 (.inl hp'.2)).1
-  rw [registered, hp'.1] at this
-  cases this
 
 end WaitN
